@@ -373,6 +373,9 @@ func checkC14(run *mon.Run, rng *mon.Rand, thorough bool) {
 			gen = append(gen, NewValKey(i))
 		}
 		w := newValWorld(run, "C14", gen, 100, 2)
+		if g%2 == 0 {
+			w.e.EnableShadow(rng.U64())
+		}
 		if err, pv := w.e.L2.BeginBlock(1e9); err != nil || pv != nil {
 			panic(fmt.Sprint(err, pv))
 		}
